@@ -16,6 +16,7 @@ CONSTANTS MaxN,         \* profiles of 2..MaxN layers
           MaxIter,      \* the code's maxiter (200)
           ScanMax,      \* equivalent-layers scan: top height 1..ScanMax sevenths
           ScanL,        \* ... and 1..ScanL layers
+          BigN,         \* larger layer counts explored with the structured strength profiles only
           ArangeEdges,  \* TRUE = model numpy.arange's float-dependent length as nondeterminism (the repaired code has FALSE)
           Emit
 
@@ -141,11 +142,17 @@ Init ==
              mode = "og" /\ pc = "choose" /\ cfg = [N |-> n, L |-> L, R |-> R, h |-> h]
        \/ \E n \in 2..MaxN : \E L \in 1..(n-1), h \in HeightFamilies(n) :
              mode = "el" /\ pc = "choose" /\ cfg = [N |-> n, L |-> L, h |-> h]
+       \/ \E n \in BigN : \E L \in 1..(n-1), R \in 0..1, h \in { [k \in 0..(n-1) |-> k], [k \in 0..(n-1) |-> k*k] } :
+             mode = "og" /\ pc = "choose" /\ cfg = [N |-> n, L |-> L, R |-> R, h |-> h, shapes |-> TRUE]
        \/ \E t \in 1..ScanMax, L \in 1..ScanL : mode = "elscan" /\ pc = "done" /\ cfg = [top7 |-> t, L |-> L]
 
+\* structured strength profiles for the larger layer counts: flat, ramp up, ramp down, peak in the middle, two peaks, strong top
+Shapes(n) == { [k \in 0..(n-1) |-> 1], [k \in 0..(n-1) |-> k + 1], [k \in 0..(n-1) |-> n - k],
+               [k \in 0..(n-1) |-> 1 + (IF 2*k < n THEN k ELSE n - 1 - k) * 3],
+               [k \in 0..(n-1) |-> IF k = 1 \/ k = n - 2 THEN 9 ELSE 1], [k \in 0..(n-1) |-> IF k = n - 1 THEN 20 ELSE 2] }
 Choose ==
     /\ pc = "choose"
-    /\ \E p \in [0..(N-1) -> Strengths] :
+    /\ \E p \in (IF "shapes" \in DOMAIN cfg THEN Shapes(N) ELSE [0..(N-1) -> Strengths]) :
           /\ SeqSum(ToSeq0(p, N)) > 0
           /\ cfg' = cfg @@ [p |-> p]
     /\ IF mode = "og" THEN MinStart(EqualSplit(N, cfg.L)) ELSE pc' = "bin" /\ UNCHANGED <<gam, iter>>
